@@ -22,8 +22,8 @@ CHECKS = {
          'Lean 4 proofs over reachable states + differential correspondence + reference-model oracle'),
  'C09': ('proof', 'Theorems for every reachable state: the executions performed by a wake-up, a sleep or re-enabling are in non-decreasing order of the reported run times, each due no later than the clock, and everything still queued afterwards is due no earlier than any of them (any number of due jobs, whatever they do when run); the queue is sorted, duplicate-free and free of jobs without run time. Correspondence compares the order of executions inside each wake-up.', '8 C09', SCHED_NOTE,
          'Lean 4 proof (ordering argument over the run loop using C04) + differential correspondence'),
- 'C10': ('proof', 'Theorems: callbacks change nothing but the log; a wake-up keeps the scheduler invariant whatever raises; a failed reschedule never leaves the job RUNNING with the run time it was just executed for; the C01/C09 theorems (timer stays armed, every due job is executed in the wake-up, in order) hold for every failure injection. Correspondence with injected failures in callables (call-time and await-time), callbacks and triggers; oracle: one handler report per failing invocation, behaviour identical to the failure-free history.', '8 C10', SCHED_NOTE,
-         'Lean 4 proof + differential correspondence + failure-free differential oracle'),
+ 'C10': ('proof', 'Theorems: for every history, the run with raising callables/callbacks and the run of the same history without those failures return the same from every operation and end in states that agree in everything (status, run times, queue, timer, store, every logged execution and callback invocation) except the failure reports themselves; callbacks change nothing but the log; a wake-up keeps the scheduler invariant whatever raises; a failed reschedule never leaves the job RUNNING with the run time it was just executed for; the C01/C09 theorems (timer stays armed, every due job is executed in the wake-up, in order) hold for every failure injection. Correspondence with injected failures in callables (call-time and await-time), callbacks and triggers; oracle: one handler report per failing invocation, behaviour identical to the failure-free history.', '8 C10', SCHED_NOTE,
+         'Lean 4 proof (equational commutation with the failure-erasing projection, invariants) + differential correspondence + failure-free differential oracle'),
  'C04': ('proof', 'Theorem getNext_gt: for EVERY trigger expression of the model (time, interval, sun over any ephemeris, group, any nesting of '
          'offset/earliest/latest/jitter, any filters), every zone table, draw function and reference instant a computed next occurrence is '
          'strictly later. Tied to the code by comparing model and real producers (built through the builder API) on chains and boundary '
@@ -65,11 +65,14 @@ CHECKS = {
          'is created; the done callback frees the slot; the unbounded manager creates and tracks a task for every coroutine. '
          'Correspondence incl. garbage collection of weakly held tasks.', '8 C12', TM_NOTE,
          'Lean 4 invariant proof + differential correspondence on a real loop'),
- 'C03': ('proof', 'Composition theorem reschedule_is_next_occurrence: after an execution at instant t a recurring job reports the least '
-         'admissible occurrence of its trigger strictly after t (scheduler layer C01 + trigger layer C04/C05). The end-to-end statement '
-         'over days to weeks is decided by the correspondence of model and real scheduler under the virtual clock in zones around '
-         'clock changes, month and year ends (incl. timers that fire early), and by an oracle that enumerates occurrences with zoneinfo.',
-         '8 C03', SCHED_NOTE, 'Lean 4 composition of the C01 and C05 theorems + differential correspondence + independent occurrence oracle'),
+ 'C03': ('proof', 'Theorems: one full round of a recurring job in every reachable state, whatever else is queued or happens in the wake-up: '
+         'a recurring job whose reported run time is reached is executed by that wake-up and queued again for exactly get_next(trigger, '
+         'execution instant), strictly in the future (recurring_round); that value is the least admissible occurrence of the trigger after the '
+         'execution instant (reschedule_is_next_occurrence, C05); no announcement is executed twice (C02). The statement over days to weeks in '
+         'real zones is in addition decided by the correspondence of model and real scheduler under the virtual clock in zones around '
+         'clock changes, month and year ends (early-firing timers, late wake-ups, jobs created inside repeated / right after skipped '
+         'intervals), and by an oracle that enumerates occurrences with zoneinfo.',
+         '8 C03', SCHED_NOTE, 'Lean 4 proof (job record followed through the run loop and its recursion; composition with C01/C02/C05) + differential correspondence + independent occurrence oracle'),
  'C15': ('proof', 'Theorems: a trigger is a value and get_next a function; the two stateful places of the objects are unobservable - any grid '
          'point as interval anchor gives the same answers, anchoring is idempotent (an object never changes after its first query), and '
          'a consistent sun cache returns exactly what a recomputation returns (cleared on set_location). The check queries objects, '
